@@ -41,7 +41,7 @@ CLAIMS = {
          "any well-formed interval over any built machine returns a value, printing a constructed record never hits its expect()s. Tied to the "
          "code by catch_unwind runs in debug and release on valid, mutated, grammar-random and byte-random streams, every iterator driven past "
          "errors. Partial: allocation failure and stack exhaustion are not modelled; panic sites are transcribed by hand.", "DESIGN.md 5 (C06)"),
- "C07": ("Three theorems (Props/C07.v): the section drain ends within lines+2 calls with at most one item per line; the step-through drain "
+ "C07": ("Four theorems (Props/C07.v): the stream of line reads over a byte string has at most LF-count+1 elements (what lines() yields); the section drain ends within lines+2 calls with at most one item per line; the step-through drain "
          "ends with at most records+1 items; after an error the step-through yields nothing; plus _refuted witnesses that the pre-fix code was "
          "unbounded. Tied to the code by capped drains of all three iterators on generated streams/sections (incl. streams ending inside a "
          "section, sections not adding up or out of bounds).", "DESIGN.md 5 (C07)"),
